@@ -408,7 +408,7 @@ package termincommittee
 //@   requires [term-not-yet-committed] ncommitted == 0
 //@   ensures [O9.lock-kept] LockKept(tic, old(tic.preparedLocally), old(tic.preparedLocally.isPreparedLocally), old(tic.preparedLocally.latestView))
 //@   inv GhostInv(tic)
-//@   props C08 C10 C03 C09 C12 C11
+//@   props C08 C10 C03 C09 C12 C11 C18
 //@   safety iface
 //@   requires TicOK(tic)
 //@   requires [FilterOK] pm != nil && pm.content != nil && pm.content.SignedHeader().BlockHeight() == tic.State.height && pm.content.Sender().MemberId() != tic.myMemberId && pm.content.SignedHeader().InstanceId() == tic.messageFactory.instanceId
@@ -497,7 +497,7 @@ package termincommittee
 //@   ensures Commits(self, blockHeight, result0, result1) && result0 != nil && result0.Height() == blockHeight
 
 //@ func (*TermInCommittee).validatePreprepare
-//@   props C07 C08 C10 C12 C11
+//@   props C07 C08 C10 C12 C11 C18
 //@   ensures [C11:complete] !ppStored[ppm.content.SignedHeader().View()] && ppm.content.SignedHeader().MessageType() == protocol.LEAN_HELIX_PREPREPARE && Canonical(ppm.content.SignedHeader())
 //@     | && Signed(tic, ppm.content.SignedHeader(), ppm.content.Sender()) && ppm.content.Sender().MemberId() == LeaderOf(tic.committeeMembers, ppm.content.SignedHeader().View()) ==> result == nil
 //@   safety iface
@@ -587,7 +587,7 @@ package termincommittee
 //@   ensures [leader-of-term-committee] result == LeaderOf(tic.committeeMembers, view)
 
 //@ func (*TermInCommittee).isViewChangeValid
-//@   props C07 C08 C09 C12 C11
+//@   props C07 C08 C09 C12 C11 C18
 //@   ensures [C11:complete] vcm.SignedHeader().MessageType() == protocol.LEAN_HELIX_VIEW_CHANGE && VerifiedMsg(tic.keyManager, vcm.SignedHeader().BlockHeight(), vcm.SignedHeader().Raw(), vcm.Sender().MemberId(), vcm.Sender().Signature())
 //@     | && (HasProof(vcm) ==> ProofAcceptable(tic, vcm.SignedHeader().PreparedProof(), tic.State.height, vcm.SignedHeader().View())) ==> result == nil
 //@   safety iface
@@ -696,7 +696,7 @@ package termincommittee
 //@   requires [term-not-yet-committed] ncommitted == 0
 //@   ensures [O9.lock-kept] LockKept(tic, old(tic.preparedLocally), old(tic.preparedLocally.isPreparedLocally), old(tic.preparedLocally.latestView))
 //@   assert before call ValidateBlockCommitment [O4.the-block-shipped-with-a-vote-is-checked-against-the-proven-hash] $blockHeight == vcm.content.SignedHeader().BlockHeight() && $block == vcm.block && $blockHash == vcm.content.SignedHeader().PreparedProof().PreprepareBlockRef().BlockHash()
-//@   props C08 C09 C07 C10 C12 C11
+//@   props C08 C09 C07 C10 C12 C11 C18
 //@   safety iface
 //@   requires TicOK(tic)
 //@   inv GhostInv(tic)
@@ -710,7 +710,7 @@ package termincommittee
 //@   ensures [view-monotone] tic.State.view >= old(tic.State.view) && tic.State == old(tic.State) && lastVC == old(lastVC)
 //@   requires [term-not-yet-committed] ncommitted == 0
 //@   ensures [O9.lock-kept] LockKept(tic, old(tic.preparedLocally), old(tic.preparedLocally.isPreparedLocally), old(tic.preparedLocally.latestView))
-//@   props C07 C09 C10 C12
+//@   props C07 C09 C10 C12 C18
 //@   safety iface
 //@   requires TicOK(tic)
 //@   inv GhostInv(tic)
@@ -729,7 +729,7 @@ package termincommittee
 //@   requires [term-not-yet-committed] ncommitted == 0
 //@   ensures [O9.lock-kept] LockKept(tic, old(tic.preparedLocally), old(tic.preparedLocally.isPreparedLocally), old(tic.preparedLocally.latestView))
 //@   assert before call RequestNewBlockProposal [O4.a-new-block-is-requested-for-this-height-in-this-node-name-on-top-of-the-previous-block] $blockHeight == tic.State.height && $memberId == tic.myMemberId && $prevBlock == tic.prevBlock
-//@   props C07 C09 C10 C04 C15 C12 C11
+//@   props C07 C09 C10 C04 C15 C12 C11 C18
 //@   safety iface
 //@   requires TicOK(tic)
 //@   inv GhostInv(tic)
@@ -766,7 +766,7 @@ package termincommittee
 //@   assume [A-GHOST.send-log] lastVC == dyn(message, *interfaces.ViewChangeMessage).content.SignedHeader().View()
 
 //@ func (*TermInCommittee).moveToNextLeaderByElection
-//@   props C09 C10 C19 C07 C12 C11
+//@   props C09 C10 C19 C07 C12 C11 C18
 //@   safety iface
 //@   requires TicOK(tic)
 //@   inv GhostInv(tic)
@@ -815,7 +815,7 @@ package termincommittee
 //@ func (*TermInCommittee).startTerm
 //@   assert before call For [O15.7.proposal-requested-under-the-context-of-its-own-view] $hv.height == tic.State.height && $hv.view == 0
 //@   assert before call RequestNewBlockProposal [O4.a-new-block-is-requested-for-this-height-in-this-node-name-on-top-of-the-previous-block] $blockHeight == tic.State.height && $memberId == tic.myMemberId && $prevBlock == tic.prevBlock
-//@   props C10 C14 C15 C12
+//@   props C10 C14 C15 C12 C18
 //@   safety iface
 //@   requires TicOK(tic)
 //@   inv GhostInv(tic)
